@@ -15,7 +15,7 @@ import numpy as np
 import felupe as fem
 
 from .. import gen, jobsim, refmodel, world
-from ..kernel import Discard, EventLog, InjectedFault, Streams, Violation, adigest, origin
+from ..kernel import Discard, EventLog, InjectedFault, Streams, Violation, adigest, origin, pick
 from .C15 import defgrad
 
 PROP = "C09"
@@ -76,18 +76,18 @@ def generate(seed, tier, k):
     if case == "patch":
         H = [[gen.rfloat(r, -0.25, 0.25) for _ in range(dim)] for _ in range(dim)]
         vals = gen.ramp_values(r, n, 1.0, shape if shape in ("mono", "nonuniform", "repeat") else "mono")
-        doc["bc"] = {"case": "patch", "init": "scalar" if seed % 2 else "array"}
+        doc["bc"] = {"case": "patch", "init": "scalar" if pick(seed, "patch-init", 2) else "array"}
         doc["steps"] = [{"ramp": [{"target": "bc:patch", "values": vals, "H": H}]}]
     elif case == "uniaxial":
         e1 = r.choice([-0.25, -0.15, 0.1, 0.2, 0.3, 0.45])
         ax = r.randrange(dim)
         vals = gen.ramp_values(r, n, round(e1 * mesh["b"][ax], 6), shape)
         doc["bc"] = {"case": "uniaxial", "clamped": False, "sym": True, "axis": ax}
-        if seed % 3 == 0:
+        if pick(seed, "sym-flags", 3) == 0:
             # no symmetry plane normal to the loading axis: the left end face is held instead;
             # the flags given per axis, typed as bools, ints or an array
             doc["bc"]["sym"] = [a_ != ax for a_ in range(3)]
-            doc["bc"]["sym_type"] = ("bool", "int", "ndarray-bool", "ndarray-int")[(seed // 3) % 4]
+            doc["bc"]["sym_type"] = ("bool", "int", "ndarray-bool", "ndarray-int")[pick(seed, "sym-type", 4)]
         doc["steps"] = [{"ramp": [{"target": "bc:move", "values": vals}]}]
     else:
         e1 = r.choice([-0.15, 0.1, 0.2, 0.3])
